@@ -283,13 +283,14 @@ class Known:
         if os.path.exists(p):
             d = json.load(open(p))
             self.entries = [e for e in d.get("known", []) if pid in e.get("properties", [e.get("property")])]
+        self.pid = pid
         self.hits = {}
 
     def match(self, prog_line, deviation):
         np = norm_prog(prog_line)
         for e in self.entries:
             for inst in e.get("instances", []):
-                if inst["prog"] == np and inst["deviation"] == deviation:
+                if inst["prog"] == np and inst["deviation"] == deviation and self.pid in inst.get("properties", [self.pid]):
                     self.hits[e["id"]] = self.hits.get(e["id"], 0) + 1
                     return e["id"]
         return None
@@ -954,6 +955,41 @@ def frozen_check(parsed):
     return None
 
 
+def region_check(parsed):
+    """Decisions taken between stop_exploring() and explore(), or after
+    skip_branch(), must be recorded as non-exploring (so that no alternative is
+    ever tried for them). Independent of the flag stored in the path: the region
+    is reconstructed from the calls in the API trace."""
+    for n, it in enumerate(parsed["iterations"]):
+        if not it["end"]:
+            continue
+        beg = parse_dump(it["begin"])
+        length = len(beg["entries"])
+        pos = 0
+        explicit = beg["head"].get("eos") == "0"
+        in_region = explicit        # expect_explicit_explore: nothing explored before explore()
+        skipped = False
+        must_freeze = []
+        for a in it["api"]:
+            if a == "critical":
+                in_region = True
+            elif a == "explore":
+                in_region = False
+            elif a == "skip":
+                skipped = True
+            elif a.startswith(("branch_thread ->", "branch_load ->", "branch_spurious ->")):
+                pos += 1
+            elif a.startswith(("branch_thread seed", "push_load")):
+                if in_region or skipped:
+                    must_freeze.append(length)
+                length += 1
+        end = parse_dump(it["end"])["entries"]
+        for k in must_freeze:
+            if k < len(end) and end[k].get("ex") == "1":
+                return f"iteration {n + 1}: the decision at position {k} was taken while exploration was stopped/skipped but is recorded as explorable"
+    return None
+
+
 class C19:
     level = "proof"
     design_ref = "DESIGN.md section 8, C19"
@@ -985,7 +1021,7 @@ class C19:
             if i not in fam.parsed or (len(ctl) + i) not in fam.parsed:
                 continue
             p = fam.parsed[i]
-            why = frozen_check(p)
+            why = frozen_check(p) or region_check(p)
             nfrozen += 1
             if why:
                 res["violations"].append({"prog": lines[i], "deviation": "frozen:" + why})
@@ -1110,7 +1146,10 @@ class C13:
         base = gen.fam_bound_core("quick")[::7][:24] if ctx.tier == "quick" else gen.fam_bound_core("thorough")[::3][:120]
         failing = [l for l in gen.fam_dead_core("quick") if l.startswith(("ddM", "ddH"))][:12]
         rnd = gen.family_random(ctx.seed, 20 if ctx.tier == "quick" else 150, list("AMNH"), nthreads=(2, 3), maxops=3, prefix="c13r")
-        progs = base + rnd
+        # the whole configuration must survive the checkpoint: preemption bounds, explicit exploration
+        bounded = [gen.with_cfg(l, pb=b) for b in (1, 2) for l in gen.fam_bound_core("quick") if l.startswith(("pbA3", "pbM"))][:16]
+        bounded += [gen.with_cfg(l, ee=1) for l in gen.fam_ctl_core("quick") if l.startswith("ctE")][:4]
+        progs = base + rnd + bounded
         # 1. determinism: the same family twice in one process, once more in another process
         fam = FamilyRun(ctx, progs + progs, "c13a")
         fam2 = FamilyRun(ctx, progs, "c13b")
@@ -1251,7 +1290,11 @@ class C16:
         res = {"coverage": {}, "violations": [], "broken": [], "known": []}
         pool = (gen.fam_sync_core("quick")[::13] + gen.fam_dead_core("quick")[::9] + gen.fam_leak_core("quick")[::9] +
                 gen.fam_crash_core("quick")[::15] + gen.fam_arc_core("quick")[::40])
-        pool += gen.family_random(ctx.seed, 30 if ctx.tier == "quick" else 300, list("AMRCNHUK"), nthreads=(2, 3), maxops=3, prefix="c16r")
+        # state that lives in the thread set / objects across a whole iteration: SC-fence clock, lazy statics, TLS
+        pool += [l for l in gen.fam_race_core("quick") if l.startswith(("rcFsc", "rcMP"))][::6]
+        pool += [l for l in gen.fam_litmus_core("quick") if "fn sc" in l][::5]
+        pool += gen.fam_tls_core("quick")[::40]
+        pool += gen.family_random(ctx.seed, 30 if ctx.tier == "quick" else 300, list("AMRCNHUKF"), nthreads=(2, 3), maxops=3, prefix="c16r")
         seq = []
         for i in range(0, len(pool) - 1, 2):
             seq += [pool[i], pool[i + 1], pool[i], pool[i + 1]]
